@@ -7,7 +7,6 @@ import json
 import json as _json
 import math
 import os
-import re
 from collections import Counter
 
 import numpy as np
@@ -444,6 +443,16 @@ def _must_accept(c, native, atol):
     return True
 
 
+def _md_may_be_too_long(built):
+    """Decided from the recipe, not from the message: the documented metadata format has at most ten values
+    (measurement0..9) of 40 characters; the serializer rejects more than nine.  A circuit whose key/target records need
+    more than 9 * 40 characters may therefore legitimately be rejected (any ValueError message)."""
+    for _, _, expected, _ in built:
+        if expected and sum(_record_len(k, xs) for k, xs in expected) + len(expected) - 1 > 9 * 40:
+            return True
+    return False
+
+
 def _check_metadata(what, md, expected):
     got = RI.parse_measurement_metadata(md)
     keys = [k for k, _ in got]
@@ -562,7 +571,7 @@ def oracle_ionq_serializer(r):
     if err is not None:
         if _has_ionq_invert_mask(sub, r) or _has_ionq_repeated_key(sub, r):
             return {"nontrivial": False, "unsupported_measurement_rejected": True}
-        if all(_must_accept(c, r["native"], atol) for c in r["circs"]) and "too long for IonQ API" not in str(err):
+        if all(_must_accept(c, r["native"], atol) for c in r["circs"]) and not _md_may_be_too_long(built):
             raise Violation(f"circuit inside the documented IonQ vocabulary was rejected: {type(err).__name__}: {err}")
         raise Reject(f"documented rejection: {type(err).__name__}")
     _check_invert_and_repeats(r)
@@ -666,7 +675,7 @@ def oracle_ionq_rejects(r):
         planted = cirq.Circuit(gates_part, meas_part, cirq.measure(qs[0], key="rep"), cirq.measure(qs[1], key="rep"))
     elif kind == "longkeys":
         qs = cirq.LineQubit.range(6)
-        planted = cirq.Circuit(gates_part, [cirq.measure(q, key="k" * (61 + r["pos"]) + str(i)) for i, q in enumerate(qs)])
+        planted = cirq.Circuit(gates_part, [cirq.measure(q, key="k" * (80 + r["pos"]) + str(i)) for i, q in enumerate(qs)])
     else:
         raise KeyError(kind)
     ser = cirq_ionq.Serializer()
@@ -951,7 +960,7 @@ class _FakeIonQ:
         return _Resp({"id": jid, "status": "ready"})
 
     def get(self, url, params=None, headers=None):
-        jid = re.search(r"/jobs/(job-\d+)", url).group(1)
+        jid = max((j for j in self.jobs if j in url), key=len)  # the job id the client put into the URL
         if "/results" in url:
             body = self.posted[int(jid.split("-")[1]) - 1]
             batch = body.get("type") == "ionq.multi-circuit.v1"
@@ -1009,7 +1018,7 @@ def oracle_ionq_service(r):
             else:
                 job = svc.create_job(built[0][0], repetitions=reps, name="nm", dry_run=False, **kw)
         except (ValueError, NotSupportedPauliexpParameters) as e:
-            if all(_must_accept(c, native, atol) for c in r["circs"]) and "too long for IonQ API" not in str(e):
+            if all(_must_accept(c, native, atol) for c in r["circs"]) and not _md_may_be_too_long(built):
                 raise Violation(f"circuit inside the documented IonQ vocabulary was rejected: {type(e).__name__}: {e}")
             raise Reject(f"documented rejection: {type(e).__name__}")
         except IonQSerializerMixedGatesetsException:
@@ -1456,7 +1465,7 @@ def oracle_pasqal(r):
         try:
             out = sampler.run_sweep(c, params=resolvers if nsym else None, repetitions=int(r["reps"]))
         except ValueError as e:
-            raise Reject(f"device validation: {str(e)[:40]}")
+            raise Reject("device validation: ValueError")
     if len(out) != len(resolvers) or len(fake.posted) != len(resolvers):
         raise Violation(f"{len(out)} results / {len(fake.posted)} requests for {len(resolvers)} resolvers")
     for i, (pr, req, got, want_res) in enumerate(zip(resolvers, fake.posted, out, served)):
